@@ -722,3 +722,55 @@ def bounds_setters(ctx, which, via):
         owned = rejected or list(m.arg_bounds[which]) == new
     ctx.ensure("bounds-owned-by-the-model", owned)
     ctx.ensure("current-value-inside-the-new-bounds-or-rejected", inside)
+
+
+def _state(m):
+    return (int(m.dim), float(m.var), float(m.len_scale), float(m.nugget), tuple(np.round(np.atleast_1d(m.anis), 12)),
+            tuple(np.round(np.atleast_1d(m.angles), 12)), tuple(sorted((k, float(getattr(m, k))) for k in m.opt_arg)))
+
+
+@contract(P, "CovModel.integral_scale.setter,dim.setter[custom-bounds]/rejected-assignments-change-nothing;valid-values-accepted",
+          params={"case": ["integral_scale:valid-under-custom-len_scale-bounds", "integral_scale:rejected-list(TPL)",
+                           "integral_scale:rejected-scalar", "dim:rejected-by-custom-anis-bounds", "len_scale:rejected-list"]},
+          functions=["covmodel/base.py:CovModel.integral_scale", "covmodel/base.py:CovModel.len_scale",
+                     "covmodel/tools.py:set_dim", "covmodel/tools.py:check_arg_bounds"],
+          bounded="native run: one model and one assignment per case")
+def transactional_setters(ctx, case):
+    """'values outside their bounds are always rejected': a rejected assignment leaves the model as it was (the
+    per-parameter setter contracts prove this for the simple setters; these are the composite ones), and a value
+    whose RESULT lies inside the bounds is accepted whatever intermediate values the setter uses"""
+    from gsvc import symrun as _sr
+    ok = True
+    with _sr.native():
+        if case.startswith("integral_scale:valid"):
+            m = _quiet(gs.Gaussian, dim=2, len_scale=10.0)
+            m.set_arg_bounds(len_scale=[5.0, 20.0])
+            try:
+                m.integral_scale = 10.0         # resulting len_scale = 10 * 2 / sqrt(pi) = 11.28 in [5, 20]
+                ok = abs(float(m.integral_scale) - 10.0) < 1e-9 and 5.0 <= float(m.len_scale) <= 20.0
+            except ValueError:
+                ok = False
+        else:
+            if case == "integral_scale:rejected-list(TPL)":
+                m = _quiet(gs.TPLGaussian, dim=2, len_scale=3.0, len_low=5.0, anis=0.5)
+                act = lambda: setattr(m, "integral_scale", [10.0, 2.0])          # noqa: E731
+            elif case == "integral_scale:rejected-scalar":
+                m = _quiet(gs.Gaussian, dim=2, len_scale=3.0, anis=0.5)
+                act = lambda: setattr(m, "integral_scale", -1.0)                 # noqa: E731
+            elif case == "len_scale:rejected-list":
+                m = _quiet(gs.Gaussian, dim=2, len_scale=3.0, anis=0.5)
+                m.set_arg_bounds(anis=[0.1, 0.9])
+                act = lambda: setattr(m, "len_scale", [2.0, 4.0])                # noqa: E731  ratio 2 outside [0.1, 0.9]
+            else:
+                m = _quiet(gs.Gaussian, dim=2, anis=0.5)
+                m.set_arg_bounds(anis=[0.1, 0.9])
+                act = lambda: setattr(m, "dim", 3)                               # noqa: E731  new ratio 1 outside [0.1, 0.9]
+            before = _state(m)
+            try:
+                _quiet(act)
+                ok = True       # accepted: nothing to show here (the per-setter contracts cover accepted values)
+            except ValueError:
+                ok = _state(m) == before
+                if not ok and ctx.mode == "conc":
+                    ctx.results["state-before/after"] = repr((before, _state(m)))
+    ctx.ensure("rejected=>model-unchanged;valid=>accepted", ok)
